@@ -724,7 +724,7 @@ pub fn family(name: &str, n: usize) -> String {
 }
 
 fn depth<W: Write>(thorough: bool, out: &mut W) {
-    let sizes: &[usize] = if thorough { &[1, 2, 3, 10, 100, 1000, 10000, 30000] } else { &[1, 2, 3, 10, 100, 1000, 5000] };
+    let sizes: &[usize] = if thorough { &[1, 2, 3, 10, 100, 1000, 5000, 12000] } else { &[1, 2, 3, 10, 100, 1000, 5000] };
     for fam in ["chain", "dots", "branches", "ringlist", "ringchain", "digits"] {
         for &n in sizes { read_req(out, &family(fam, n)) }
     }
